@@ -58,8 +58,9 @@ pub fn program(c: &Case) -> String {
         s.push_str(&format!("    {e}\n}}\n"));
     }
     s.push_str(&format!("fn main(x: {tn}, raw: Bytes) -> {tn} {{\n    log(x);\n    let b = encode(x);\n    log(b);\n    let y = abi_decode::<{tn}>(b);\n    log(y);\n"));
-    for (p, _) in projections(&c.decls, &c.ty, MAX_PROJ) {
-        if !p.is_empty() {
+    let known = projection_known_shape(&c.decls, &c.ty, MAX_PROJ);
+    for ((p, _), k) in projections(&c.decls, &c.ty, MAX_PROJ).iter().zip(&known) {
+        if !p.is_empty() && !k {
             s.push_str(&format!("    log(y{p});\n"));
         }
     }
@@ -84,8 +85,9 @@ fn expected_logs(c: &Case, v: &Val, z: &Val) -> Vec<(Vec<u8>, Option<Ty>, String
     let mut out = vec![(e.clone(), Some(c.ty.clone()), "log(x)".to_string()), (raw_slice_bytes(&e), None, "log(encode(x))".to_string()), (e.clone(), Some(c.ty.clone()), "log(abi_decode(encode(x)))".to_string())];
     let ps = projections(&c.decls, &c.ty, MAX_PROJ);
     let pv = project_vals(&c.decls, &c.ty, v, MAX_PROJ);
-    for ((p, _), (t, x)) in ps.iter().zip(pv) {
-        if !p.is_empty() {
+    let known = projection_known_shape(&c.decls, &c.ty, MAX_PROJ);
+    for (((p, _), (t, x)), k) in ps.iter().zip(pv).zip(&known) {
+        if !p.is_empty() && !k {
             out.push((enc(&c.decls, &t, &x), Some(t), format!("log(y{p})")));
         }
     }
@@ -125,7 +127,7 @@ pub fn check_run(c: &Case, view: &AbiView, v: &Val, z: &Val, o: &Outcome) -> Res
             return Err((sig.into(), format!("{label}: logged {} but the canonical encoding is {}", hex::encode(&data), hex::encode(bytes))));
         }
         // the log id must lead to the logged type in the JSON ABI
-        let pt = view.logged(rb).map_err(|m| ("abi-logged-type-missing".to_string(), format!("{label}: {m}")))?;
+        let pt = view.logged(rb).map_err(|m| (if m.contains("cannot resolve") { "abi-logged-type-unresolvable" } else { "abi-logged-type-missing" }.to_string(), format!("{label}: {m}")))?;
         match lty {
             Some(t) => abi::describes(&pt, &c.decls, t).map_err(|m| ("abi-logged-type-mismatch".to_string(), format!("{label}: {m}")))?,
             None => {
@@ -177,6 +179,38 @@ pub struct CaseInfo {
     pub stats: Stats,
     pub runs: usize,
     pub sdk_checked: usize,
+    /// projections not logged because of the recorded JSON ABI finding
+    pub excluded_projections: usize,
+}
+
+/// signature of the recorded finding (known_findings.d/vp-abi.json)
+pub const SIG_UNBOUND_GENERIC: &str = "abi-inferred-type-of-generic-field-leaves-type-parameter-unbound";
+const PINNED_UNBOUND_GENERIC: &str = "script;\nstruct S<T> {\n    a: (T, u8),\n}\nfn main(x: S<u32>) -> S<u32> {\n    log(x.a);\n    x\n}\n";
+
+/// The pinned case of the recorded finding, executed on every run: the logged type `(u32, u8)` comes from the field
+/// `a: (T, u8)` of `S<u32>`; its JSON ABI description is the tuple metadata `(generic T, u8)` with nothing binding `T`.
+fn pinned_known_finding(rep: &Report) {
+    let b = match comp::compile(PINNED_UNBOUND_GENERIC, false) {
+        Ok(b) => b,
+        Err(f) => {
+            rep.inconclusive(&format!("pinned case of the recorded finding does not compile: {}", truncate(&f.message, 200)));
+            return;
+        }
+    };
+    let o = exec::run_script(&b.bytecode, &[0, 0, 0, 7, 9]);
+    let Some(Log::LogData { rb, data }) = o.logs.first().cloned() else {
+        rep.inconclusive("pinned case of the recorded finding did not log");
+        return;
+    };
+    let resolved = AbiView::new(&b.abi).and_then(|v| v.logged(rb));
+    rep.class(if resolved.is_ok() { "pinned:unbound-generic-finding-not-observed" } else { "pinned:unbound-generic-finding-observed" });
+    if let Err(m) = resolved {
+        rep.violation(Violation {
+            signature: SIG_UNBOUND_GENERIC.into(),
+            summary: format!("log(x.a) with x: S<u32>, a: (T, u8) logs {} but its type in the JSON ABI cannot be resolved: {m}", hex::encode(&data)),
+            replay: json!({"property": "C09", "src": PINNED_UNBOUND_GENERIC, "abi": serde_json::to_value(&b.abi).unwrap_or(Value::Null)}),
+        });
+    }
 }
 
 fn case_json(c: &Case, src: &str) -> Value {
@@ -198,7 +232,10 @@ pub fn eval(tape: &[u16], rep: &Report, rejects: &crate::Rejects, confirm: bool)
     };
     let first = eval_built(&c, &b, rep);
     let (sig, detail, extra) = match first {
-        Ok(sdk) => return Ok(Some(CaseInfo { stats: st, runs: c.vals.len(), sdk_checked: sdk })),
+        Ok(sdk) => {
+            let excluded_projections = projection_known_shape(&c.decls, &c.ty, MAX_PROJ).iter().filter(|k| **k).count();
+            return Ok(Some(CaseInfo { stats: st, runs: c.vals.len(), sdk_checked: sdk, excluded_projections }));
+        }
         Err(x) => x,
     };
     if !confirm {
@@ -304,9 +341,12 @@ pub fn run(ctx: &Ctx) {
     rep.assume("sizes are bounded: Vec <= 4 elements, Bytes <= 13, str <= 16, arrays <= 16, tree depth <= 4 and about 22 type nodes");
     rep.assume("programs are compiled by forc_pkg::compile with a std namespace compiled once per thread; every discrepancy is re-confirmed on a stand-alone forc_pkg::build_with_options build before it is reported");
     rep.assume("decoding is exercised on canonical bytes only (invalid inputs belong to C10)");
+    rep.assume("scripts only: return data and logs of contracts and predicates are not generated");
+    rep.assume("recorded finding excluded from generation (counted in classes, one pinned case runs every time): a field projection whose declared type inside a generic struct contains a tuple/array over the type parameter is not logged on its own");
     comp::spawn_watchdog("C09");
     let rejects = crate::Rejects::default();
     crate::run_corpus("C09", &rep, |t| eval(t, &rep, &rejects, true).map(|_| ()));
+    pinned_known_finding(&rep);
     let cases = ctx.cases(400, 10_000);
     let solo = crate::Solo::default();
     let out = run_prop(ctx, 9, cases, tape_strategy, |tape| match if solo.stand_down() { Ok(None) } else { eval(tape, &rep, &rejects, false) } {
@@ -315,6 +355,7 @@ pub fn run(ctx: &Ctx) {
             rep.eval();
             rep.class_n("vm_runs", info.runs as u64);
             rep.class_n("values_checked_through_sdk_codec", info.sdk_checked as u64);
+            rep.class_n("excluded:logged-projection-of-generic-field-with-tuple-or-array-over-T(known finding)", info.excluded_projections as u64);
             let st = &info.stats;
             rep.class(&format!("depth:{}", st.depth.min(5)));
             for (on, name) in [
@@ -328,6 +369,7 @@ pub fn run(ctx: &Ctx) {
                 (st.has_strn, "has:str[N]"),
                 (st.has_zero_sized, "has:zero-sized"),
                 (st.enum_in_array_or_vec, "has:enum-in-array-or-vec"),
+                (st.generic_two_instances, "has:generic-decl-with-two-different-arguments"),
             ] {
                 if on {
                     rep.class(name);
@@ -364,7 +406,7 @@ pub fn run(ctx: &Ctx) {
     }
     rejects.finish(&rep);
     comp::drop_thread_compiler();
-    rep.finish();
+    crate::finish(&rep);
 }
 
 /// Ok(true) = holds, Ok(false) = could not be evaluated, Err = violated
